@@ -39,9 +39,9 @@ var longHeader = "X-" + strings.Repeat("Long-Name-", 9) + "End" // 95 bytes, mix
 // names around and beyond the 8-bit boundary (255, 256, 258 and 305 bytes); hugeHeader sorts before most other names
 var (
 	hugeHeader  = "A-" + strings.Repeat("Huge-Header-Name-", 17) + "End" // 294 bytes
-	hugeHeader2 = "X-" + strings.Repeat("y", 253)                         // 255 bytes
-	hugeHeader3 = "x-" + strings.Repeat("z", 254)                         // 256 bytes
-	hugeMethod  = "H" + strings.Repeat("UGEMETHOD", 30)                   // 271 bytes
+	hugeHeader2 = "X-" + strings.Repeat("y", 253)                        // 255 bytes
+	hugeHeader3 = "x-" + strings.Repeat("z", 254)                        // 256 bytes
+	hugeMethod  = "H" + strings.Repeat("UGEMETHOD", 30)                  // 271 bytes
 )
 
 var methodAtoms = []string{longMethod, hugeMethod, "*", "GET", "POST", "HEAD", "PUT", "put", "Put", "DELETE", "delete", "PATCH", "patch", "PURGE", "OPTIONS", "options", "Foo", "QUERY", "get", "pOsT"}
